@@ -14,7 +14,7 @@ from spec.catalogue import QtySpec, UnitSpec, SI_PREFIXES, PREFIX_EXP
 
 WORDS = ["alpha", "beta", "gamma", "delta", "kilo", "mega", "per", "cent", "total", "flat", "unit", "mark", "grain", "drop", "span", "tick",
          "bolt", "reed", "knot", "pace", "cord", "dram", "peck", "rod", "ell", "hand", "line", "point", "barn", "shed", "north", "west"]
-SYMS = ["a", "b", "c", "d", "e", "f", "g", "h", "k", "m", "n", "p", "q", "r", "s", "t", "u", "v", "w", "x", "y", "z", "µ", "°", "Ω", "ℓ", "ℏ", "²", "³", "/", "·"]
+SYMS = ["a", "b", "c", "d", "e", "f", "g", "h", "k", "m", "n", "p", "q", "r", "s", "t", "u", "v", "w", "x", "y", "z", "µ", "\u03bc", "°", "Ω", "ℓ", "ℏ", "²", "³", "/", "·"]
 
 
 def ident(rnd, used):
@@ -148,9 +148,11 @@ def make_definition(rnd, name, kind):
         scs[0], scs[1] = F(1, 10 ** 18), F(24, 10 ** 18)
     if name.endswith("0") or name in ("SynProd",):
         scs[rnd.randrange(len(scs))] = rnd.choice([F(159154943091895336, 10 ** 18), F(277777777777777778, 10 ** 18), F(1570796326794896619, 10 ** 18)])
-    for sc in scs:
+    for k_sc, sc in enumerate(scs):
         i = ident(rnd, used_id)
         s = symbol(rnd, used_sym, allow_dup=rnd.random() < 0.08)
+        if k_sc == 0 and (name.endswith("0") or name == "SynBig"):
+            s = "\u03bc" + s          # Greek mu (not the micro sign U+00B5): declared symbols are matched byte for byte
         text, val = literal(rnd, sc)
         pf = prefix_for(rnd, val) if (si or rnd.random() < 0.5) else None     # prefixed units are legal under a reference unit without prefix
         us.append(UnitSpec(i, s, pf, val))
